@@ -501,7 +501,7 @@ impl Scenario for E2eScn {
         )
     }
     fn rule(&self) -> &'static str {
-        "per run: a key (4 HMAC algorithms) or no TSIG; a client transport kind (datagram, stream, multiplexed stream, datagram+stream with answers beyond 512 octets); a network mode (quiet / lossy / hostile / cuts only); 1-3 callers issue 1-4 queries each, then one AXFR or IXFR (journal present or withheld) runs over a stream connection into the interpreter and updater of a secondary. Oracles: a response handed to a caller is octet-identical (TSIG removed) to a response the server sent for that exchange and that was forwarded unmodified with that id; the messages of a signed transfer are handed on as an unbroken prefix of what the server sent; a clean end of a transfer means every message arrived and the secondary equals the primary's version; a failed transfer leaves a complete version; without any fault every exchange succeeds; without corruption no single exchange fails authentication."
+        "per run: a key (4 HMAC algorithms) or no TSIG; a client transport kind (datagram, stream, multiplexed stream, datagram+stream with answers beyond 512 octets); a network mode (quiet / lossy / hostile / cuts only); 1-3 callers issue 1-4 queries each, then one AXFR or IXFR (journal present or withheld) runs over a stream connection into the interpreter and updater of a secondary. Oracles: a response handed to a caller is octet-identical (TSIG removed) to a response the server sent for that exchange and that was forwarded unmodified with that id; a signed transfer that ends cleanly handed on exactly the messages the server sent, in order, all of them, and the secondary (which applies a signed transfer only after its verified end) equals the primary's version; a failed transfer leaves a complete version; without any fault every exchange succeeds; without corruption no single exchange fails authentication."
     }
     fn assumptions(&self) -> Vec<&'static str> {
         vec![
@@ -816,6 +816,13 @@ async fn run(prop: &'static str, _tier: Tier) {
     let mut delivered: Vec<Vec<u8>> = Vec::new();
     let ex3 = exec.clone();
     let led3 = led.clone();
+    // A signed transfer is only authentic once its end has been verified
+    // (unsigned messages inside a sequence are legal and are handed on
+    // before anything vouches for them; a stripped TSIG on the last message
+    // only shows in the final check). A careful receiver therefore applies
+    // nothing before the clean end; unsigned runs apply as they go.
+    let careful = signed;
+    let mut buffered = Vec::new();
     let transfer = async {
         // (clean end?, error text, updater/interpreter complaint)
         let mut apply_err: Option<String> = None;
@@ -840,7 +847,9 @@ async fn run(prop: &'static str, _tier: Tier) {
                             for u in it {
                                 match u {
                                     Ok(u) => {
-                                        if let Err(e) = updater.apply(u).await {
+                                        if careful {
+                                            buffered.push(u);
+                                        } else if let Err(e) = updater.apply(u).await {
                                             apply_err = Some(format!("updater: {}", e));
                                             break;
                                         }
@@ -862,6 +871,14 @@ async fn run(prop: &'static str, _tier: Tier) {
                 Err(e) => break Err(format!("{:?}", e)),
             }
         };
+        if careful && end.is_ok() && apply_err.is_none() {
+            for u in buffered.drain(..) {
+                if let Err(e) = updater.apply(u).await {
+                    apply_err = Some(format!("updater: {}", e));
+                    break;
+                }
+            }
+        }
         (end, apply_err)
     };
     let driven = async {
@@ -891,8 +908,10 @@ async fn run(prop: &'static str, _tier: Tier) {
     let t = l.tracks.get("xfr").unwrap_or(&empty);
     let seen = walk_str(&walk_zone(secondary.read().as_ref()));
     let label = if ixfr { "ixfr" } else { "axfr" };
-    // (1) what was handed on is what the server sent, in order.
-    if signed {
+    // (1) a transfer that ended cleanly handed on what the server sent, in
+    // order. (Before the end is verified, messages that looked unsigned have
+    // been handed on without anything vouching for them.)
+    if signed && end.is_ok() {
         let dup_req = t.ids.len() > 1 || t.req_dups > 0;
         for (n, d) in delivered.iter().enumerate() {
             let ok = if dup_req || t.seq_faults == 0 && t.tampered == 0 { t.genuine.iter().any(|g| same_message(g, d)) } else { t.genuine.get(n).is_some_and(|g| same_message(g, d)) };
